@@ -838,10 +838,12 @@ pub fn recording_op(profile: Profile) -> BoxedStrategy<Op> {
         .prop_map(|(s, row, col, text)| Op::Input { s, row, col, text });
     let array = (sheet_sel(), 1..=HOT_ROWS, 1..=HOT_COLS, 1..3i32, 1..3i32, super::inputs::history_formula())
         .prop_map(|(s, row, col, w, h, text)| Op::ArrayFormula { s, row, col, w, h, text });
+    // cost guard: clears of a whole row/column walk every cell of the band (seconds to minutes);
+    // they are generated for small areas only
     let clear = prop_oneof![
-        area().prop_map(Op::ClearContents),
-        area().prop_map(Op::ClearAll),
-        area().prop_map(Op::ClearFormatting),
+        small_area().prop_map(Op::ClearContents),
+        small_area().prop_map(Op::ClearAll),
+        small_area().prop_map(Op::ClearFormatting),
     ];
     let style = prop_oneof![
         3 => (area(), style_edit()).prop_map(|(a, (path, value))| Op::UpdateStyle { a, path, value }),
